@@ -166,7 +166,53 @@ def translate_jvp(rule):
     return params, wrapper, tr(body, set(params))
 
 
+def tr_ring(node, env):
+    """the sub-grammar that makes sense over any commutative ring: names, natural-number literals, + - * and unary minus"""
+    if isinstance(node, ast.Name):
+        if node.id in env:
+            return node.id
+        raise Untranslatable("free name %s" % node.id)
+    if isinstance(node, ast.Constant) and not isinstance(node.value, (bool, complex)) and isinstance(node.value, (int, float)) \
+            and node.value == int(node.value) and 0 <= node.value <= 16:
+        return "(knat %d)" % int(node.value)
+    if isinstance(node, ast.UnaryOp) and isinstance(node.op, ast.USub):
+        return "(kopp %s)" % tr_ring(node.operand, env)
+    if isinstance(node, ast.BinOp) and isinstance(node.op, (ast.Add, ast.Sub, ast.Mult)):
+        op = {ast.Add: "kadd", ast.Sub: "ksub", ast.Mult: "kmul"}[type(node.op)]
+        return "(%s %s %s)" % (op, tr_ring(node.left, env), tr_ring(node.right, env))
+    raise Untranslatable("not a ring expression")
+
+
+def ring_version(kind, rule):
+    """(params, expr) of a rule whose body is a ring expression (possibly inside unbroadcast_f / broadcast), else None"""
+    try:
+        if kind == "vjp":
+            if not isinstance(rule, ast.Lambda):
+                return None
+            params = lambda_params(rule)
+            body = rule.body
+            if isinstance(body, ast.Call) and isinstance(body.func, ast.Name) and body.func.id == "unbroadcast_f" and len(body.args) == 2:
+                body = body.args[1]
+            if not isinstance(body, ast.Lambda):
+                return None
+            gp = lambda_params(body)
+            return params + gp, tr_ring(body.body, set(params + gp))
+        if not isinstance(rule, ast.Lambda):
+            return None
+        params = lambda_params(rule)
+        body = rule.body
+        if isinstance(body, ast.Call) and isinstance(body.func, ast.Name) and body.func.id == "broadcast" and len(body.args) == 2:
+            body = body.args[0]
+        return params, tr_ring(body, set(params))
+    except Untranslatable:
+        return None
+
+
 def run(repo, gen):
+    ring_out = ["(* GENERATED on every run by harness/translators/scalar_rules.py: the derivative rules whose body is a ring",
+                "   expression (names, small natural literals, + - * and unary minus), over ANY commutative ring - do not edit. *)",
+                "Section GenRingRules.", "  Variable K : Type.", "  Variables (k0 k1 : K) (kadd kmul ksub : K -> K -> K) (kopp : K -> K).",
+                "  Fixpoint knat (n : nat) : K := match n with O => k0 | S m => kadd k1 (knat m) end."]
     out = ["(* GENERATED on every run by harness/translators/scalar_rules.py from",
            "   autograd/numpy/numpy_vjps.py and numpy_jvps.py - do not edit. *)",
            "From Coq Require Import Reals.", "From AG Require Import RealPrelude.", "Local Open Scope R_scope.", ""]
@@ -206,6 +252,9 @@ def run(repo, gen):
                     continue
                 out.append("Definition %s (%s : R) : R := %s." % (ident, " ".join(params), expr))
                 table.append((kind, name, k, wrapper))
+                rv = ring_version(kind, rule)
+                if rv is not None:
+                    ring_out.append("  Definition ring_%s (%s : K) : K := %s." % (ident, " ".join(rv[0]), rv[1]))
     out.append("")
     out.append("(* the rule table: (mode, primitive, argnum, how the rule is wrapped) *)")
     out.append("Definition rule_table : list (string * string * Z * string) := [")
@@ -215,5 +264,7 @@ def run(repo, gen):
     text = text.replace("From Coq Require Import Reals.", "From Coq Require Import Reals String ZArith List.\nImport ListNotations.")
     from harness.common import write_if_changed
     write_if_changed(os.path.join(gen, "GenRules.v"), text)
+    ring_out.append("End GenRingRules.")
+    write_if_changed(os.path.join(gen, "GenRingRules.v"), "\n".join(ring_out) + "\n")
     write_if_changed(os.path.join(gen, "untranslated.json"), json.dumps(untranslated, indent=1))
     return {"translated": sum(1 for t in table if t[3] not in ("Opaque",)), "untranslated": untranslated}
